@@ -56,6 +56,15 @@ def run(ctx, prop, bias):
         out2 = ctx.sub("stop")
         ctx.run_driver(vh, "TestDrv_StopStress", out2, {"VERIF_STOP_ATTACKERS": 400000 if ctx.thorough else 30000}, timeout=3000)
         stop_cases = collect_cases(glob.glob(os.path.join(out2, "stop_*.ndjson")))
+    # 3b. C02's CLI anchor: the result pump of the attack command with its two-stage signal handling (Pump.tla)
+    if prop == "C02":
+        ctx.model_check("attack", "Pump", "MCPump.cfg")
+        out3 = ctx.sub("pump")
+        ctx.run_driver(vh, "TestDrv_Pump", out3, {"VERIF_MAINDRV": ctx.build_maindrv()}, timeout=3000)
+        plines = open(os.path.join(out3, "pump.ndjson")).readlines()
+        pn, pev, prej = core.validate_cases(ctx, "attack", "PumpTrace", "PumpTrace.cfg", None, cases=[(1, plines)], prefix="pump")
+        report_rejections(ctx, prej, lambda l, o: "Pump:" + l[o - 1].strip()[:200], "scripted run of processAttack rejected by Pump!Expected")
+        ctx.coverage["pump_scripts_validated"] = len(plines) - 1
     # 4. trace validation against the contract clauses of this property
     cfg = "AttackTrace%s.cfg" % prop
     n, nev, rej = core.validate_cases(ctx, "attack", "AttackTrace", cfg, None, cases=cases + stop_cases, nshards=core.NCPU)
